@@ -126,7 +126,7 @@ impl TraitHandler for DerefMutEnumHandler {
         token_stream.extend(quote! {
             impl #impl_generics ::core::ops::DerefMut for #ident #ty_generics #where_clause {
                 #[inline]
-                fn deref_mut(&mut self) -> &mut Self::Target {
+                fn deref_mut(&mut self) -> &mut <Self as ::core::ops::Deref>::Target {
                     match self {
                         #arms_token_stream
                     }
